@@ -14,7 +14,7 @@ from core.loader import Repo, norm
 from core.report import Result
 
 from . import search as S
-from .common import dotted, stmt_of, where
+from .common import cfg_of, dotted, stmt_of, where
 
 
 def _hier_args(repo: Repo, call: ast.Call) -> list[str]:
@@ -164,11 +164,34 @@ def run_search(repo: Repo, res: Result) -> None:
             # S4: object set is the object's whole subtree; both endpoints must not be 'sub modules of' parents
             subj_param = m.subject_param or fi.param_names[1]
             obj_param = m.object_param or fi.param_names[2]
-            obj_sets = [v for v, p in m.submodule_sets.items() if p == obj_param]
+            batched = obj_param in m.collection_params  # one walk answers for a whole collection of objects
+            obj_sets = [v for v, p in m.submodule_sets.items() if p == obj_param] + [d for d, nm in m.node_maps.items() if obj_param in (nm.collection, nm.param)]
             excls = [v for v, ps in m.parent_id_sets.items() if sorted(ps) == sorted([subj_param, obj_param])]
             for e in rec:
+                if batched:
+                    # 'edge' requirements are judged per subject/object pair: an import into the sub-tree of an object belongs to
+                    # the answer for that object - for every object whose sub-tree holds the target, not for one of them
+                    kvar, nmap, how = S.filed_under(m, e)
+                    n += 1
+                    key = repo.key(fi, stmt_of(e.call)) + " [every pair gets its imports]"
+                    if nmap is not None and how == "lookup" and nmap.single:
+                        res.add(
+                            "C01.S", key, False,
+                            f"the import is filed under the one object `{norm(e.key) if kvar is None else kvar} = {nmap.var}[{e.nvar}]`, and `{norm(nmap.store)}` keeps one object per node: when the sub-trees of two objects of "
+                            f"`{obj_param}` overlap (a package and one of its sub packages named in the same rule) the node is overwritten and the pair of the other object never gets this import "
+                            f"(a named module stands for itself and all its descendants, and every subject/object pair is judged on its own)",
+                            where(fi, nmap.store), kind="dominance",
+                        )
+                    elif nmap is not None and how == "loop" and not nmap.single:
+                        res.add("C01.S", key, True, f"the import is filed under every object whose sub-tree holds `{e.nvar}`", where(fi, e.call), kind="dominance")
+                    else:
+                        res.undecide("C01.S", key, f"cannot tell under which object(s) of `{obj_param}` the pair `{e.what}` is filed (key: `{norm(e.key) if e.key is not None else 'none'}`)", where(fi, e.call))
+                    if kvar is not None:
+                        excls = [v for v, ps in m.parent_id_sets.items() if sorted(ps) == sorted([subj_param, kvar]) and _same_object(m, v, e, kvar)]
                 n += 1
                 ok = any(implies(e.guard, atom(f"{e.nvar} in {s}")) for s in obj_sets)
+                if not ok and batched and how == "loop" and nmap is not None and nmap.var in obj_sets:
+                    ok = True  # bound by iterating the map entry of the neighbour: only objects whose sub-tree holds it
                 unknown = [] if ok else _unknown_sets(m, e.guard, [e.nvar])
                 key = repo.key(fi, stmt_of(e.call)) + " [object subtree]"
                 if not ok and unknown and not obj_sets:
@@ -234,6 +257,35 @@ def run_search(repo: Repo, res: Result) -> None:
     # vacuity is excluded per search by the role requirements above (models() demands all four searches, every explicit / other
     # search must record inside its neighbour iteration, explicit / sub-module searches must push); the floor is a backstop
     res.floor("C01.S", 12, n)
+
+
+def _same_object(m: S.SearchModel, setvar: str, ev: S.Event, kvar: str) -> bool:
+    """The parent-identifier set `setvar` was computed from the same value of the object variable `kvar` the event is filed under:
+    both sit in one iteration of the neighbour loop, after the only assignment to `kvar` in it (or inside the loop that binds it)."""
+
+    fn = m.fi.node
+    defs = [n for n in ast.walk(fn) if isinstance(n, (ast.Assign, ast.AnnAssign)) and any(isinstance(t, ast.Name) and t.id == setvar for t in (n.targets if isinstance(n, ast.Assign) else [n.target]))]
+    if len(defs) != 1:
+        return False
+    d = defs[0]
+    binder = next((a for a in S.ancestors(ev.call) if isinstance(a, (ast.For, ast.AsyncFor)) and isinstance(a.target, ast.Name) and a.target.id == kvar), None)
+    if binder is not None:
+        return any(a is binder for a in S.ancestors(d))
+    it = next((i for i in m.neighbour_iters if i.gen is None and S._inside_body(ev.call, i.node)), None)
+    if it is None or not S._inside_body(d, it.node):
+        return False
+    stores = [x for x in ast.walk(it.node) if isinstance(x, ast.Name) and x.id == kvar and isinstance(x.ctx, ast.Store)]
+    if len(stores) != 1:
+        return False
+    cfg = cfg_of(m.fi)
+    kst = stmt_of(stores[0])
+    # the names the set is computed from (`module_filters = [subject, o]`) are bound after `o` as well
+    chain = [d]
+    single = S._single_assignments(fn)
+    for x in ast.walk(d.value):
+        if isinstance(x, ast.Name) and x.id in single:
+            chain.append(stmt_of(single[x.id]))
+    return all(cfg.dominates(kst, c) for c in chain if c is not None) and cfg.dominates(d, stmt_of(ev.call))
 
 
 def _set_mutations(m: S.SearchModel, name: str) -> list[tuple[ast.AST, str, list[ast.AST]]]:
